@@ -328,3 +328,9 @@ def header_text(F, X=None):
 def helpers_text(F, X=None):
     from rules import templates as T
     return fixed_text(X or T.extractor(F), HELPERS_WRITER)
+
+
+def merge_fn(F):
+    """the function that merges an imported document into the importing one: `fn(&mut RustDocument, RustDocument)`, unique by signature"""
+    c = [f["path"] for f in _fn_items(F) if [_norm_ty(x) for x in f["inputs"]] == ["&mutmodel::doc::RustDocument", "model::doc::RustDocument"]]
+    return c[0] if len(c) == 1 else None
